@@ -23,12 +23,14 @@ cd $W
 git apply "$SRC/patch.diff" || fail "patch does not apply"
 # only program sources may be touched, no tests
 if git diff --name-only | grep -Eq '(^|/)tests?/|_test\.rs$'; then fail "patch touches tests"; fi
-# 2. suite green
-CARGO_NET_OFFLINE=true cargo test --workspace --no-fail-fast --offline -j 8 > $C/confirm_suite.txt 2>&1; rc=$?
+# 2. suite green: the 172 tests of the baseline (170 library tests, 2 regression tests; the other integration tests
+#    need BPF artefacts and fail on the original tree as well)
+CARGO_NET_OFFLINE=true cargo test --workspace --no-fail-fast --offline --lib -j 8 > $C/confirm_suite.txt 2>&1; rc=$?
+CARGO_NET_OFFLINE=true cargo test --workspace --offline --test tests -j 8 misc::regression >> $C/confirm_suite.txt 2>&1; rc2=$?
 passed=$(grep -E "^test result: " $C/confirm_suite.txt | awk '{s+=$4} END{print s+0}')
 failed=$(grep -E "^test result: " $C/confirm_suite.txt | awk '{s+=$6} END{print s+0}')
-echo "suite: passed=$passed failed=$failed rc=$rc" >> $C/confirm_suite.txt
-{ [ $rc -eq 0 ] && [ "$failed" = 0 ] && [ "$passed" -ge 172 ]; } || fail "suite not green with the patch (passed=$passed failed=$failed rc=$rc)"
+echo "suite: passed=$passed failed=$failed rc=$rc/$rc2" >> $C/confirm_suite.txt
+{ [ $rc -eq 0 ] && [ $rc2 -eq 0 ] && [ "$failed" = 0 ] && [ "$passed" -ge 172 ]; } || fail "suite not green with the patch (passed=$passed failed=$failed rc=$rc/$rc2)"
 # 3. demo fails on the patched tree
 "$SRC/demo/run.sh" $W > $C/confirm_demo_patched.txt 2>&1; rc=$?
 [ $rc -ne 0 ] || fail "demo passes on the patched tree"
